@@ -494,6 +494,67 @@ def inspection_named_like_step(binpath, res, seed):
                 break
 
 
+def forged_inner_attribution(binpath, res, seed):
+    """a sub-layout whose inner step needs two functionaries; only one of them signed.  The file named for the other holds
+    the first one's link with an additional worthless entry attributed to the missing functionary: the inner threshold is
+    not met, so the delegated step is not satisfied (at depth 1 and 2, and at the top level as a control of the same rule)"""
+    rng = common.rng_for(seed, PROP, 4545)
+    W = scen.World(binpath)
+    reqs, plans = [], []
+    for i in range(12):
+        kd, k1, k2 = rng.sample(FUNC, 3)
+        level = ["delegated", "delegated", "top"][i % 3]
+        variant = rng.choice(["forged_entry_first", "forged_entry_last", "relabelled_only", "honest_both"])
+        inner = scen.mk_layout(W, [k1, k2], [scen.mk_step("compile", 2, [W.kid(k1), W.kid(k2)], [], [["ALLOW", "*"]], [["ALLOW", "*"]])], [])
+        b = len(reqs)
+        if level == "delegated":
+            top = scen.mk_layout(W, [kd], [scen.mk_step("build", 1, [W.kid(kd)], [], [["ALLOW", "*"]], [["ALLOW", "*"]])], [])
+            reqs.append((top, ["ed0"], "new"))
+            reqs.append((inner, [kd], "new"))
+        else:
+            reqs.append((inner, ["ed0"], "new"))
+            reqs.append((inner, ["ed0"], "new"))
+        reqs.append((pipeline.leaf_link("compile", 0), [k2], "new"))
+        reqs.append((pipeline.leaf_link("compile", 0), [k1], "new"))
+        plans.append((level, variant, kd, k1, k2, b))
+    wires = scen.sign_all(binpath, reqs, nproc=1)
+    cases = []
+    for level, variant, kd, k1, k2, b in plans:
+        pre = f"build.{W.pfx(kd)}/" if level == "delegated" else ""
+        own2 = wires[b + 2]
+        s2 = own2["signatures"][0]
+        forged = copy.deepcopy(own2)
+        junk = {"keyid": W.kid(k1), "sig": rng.choice(["00" * 64, s2["sig"], "ab" * 64])}
+        if variant == "forged_entry_first":
+            forged["signatures"] = [junk, s2]
+        elif variant == "forged_entry_last":
+            forged["signatures"] = [s2, junk]
+        elif variant == "relabelled_only":
+            forged["signatures"] = [dict(s2, keyid=W.kid(k1))]
+        else:
+            forged = wires[b + 3]
+        files = {pre + f"compile.{W.pfx(k2)}.link": scen.dumps(own2), pre + f"compile.{W.pfx(k1)}.link": scen.dumps(forged)}
+        if level == "delegated":
+            files[f"build.{W.pfx(kd)}.link"] = scen.dumps(wires[b + 1])
+        cases.append(scen.verify_case(wires[b], [[W.kid("ed0"), W.pub("ed0")]], files, reps=2,
+                                      meta={"level": level, "variant": variant, "expect": "accept" if variant == "honest_both" else "reject"}))
+    obs = common.run_batch(binpath, cases)
+    for c, o in zip(cases, obs):
+        m = c["meta"]
+        if scen.harness_failed(o):
+            res.inconclusive.append(f"executor failure: {str(o)[:200]}")
+            continue
+        ok = any(r["v"] == "ok" for r in o["runs"])
+        res.note([c["layout"], sorted(c["files"].items())], True, cls=[f"forged_inner_attribution:{m['level']}", "forged_inner_attribution:" + ("accepted" if ok else "rejected")], n=2)
+        if ok and m["expect"] == "reject":
+            res.violate(f"accept:forged_inner_attribution:{m['variant']}:{m['level']}",
+                        f"the threshold-2 inner step was satisfied by ONE functionary: the file named for the other holds the first one's link "
+                        f"({m['variant'].replace('_', ' ')}) - {'the sub-layout, hence the delegated step, must fail' if m['level'] == 'delegated' else 'verification must fail'}",
+                        c, o, "reject")
+        if not ok and m["expect"] == "accept":
+            res.inconclusive.append(f"forged_inner_attribution positive control rejected: {o['runs'][0].get('e')}")
+
+
 def expiry_history(binpath, res, seed):
     """one process: a delegation tree whose sub-layout is still valid verifies; another verification fails; real time passes
     until the sub-layout's expiry is over; the tree is verified again (also one with the same shape that was never verified
@@ -637,6 +698,7 @@ def main(ctx):
         res.note(["empty", nm], True, cls="mode:empty_layout")
     pattern_names(ctx.bin, res, ctx.seed)
     inspection_named_like_step(ctx.bin, res, ctx.seed)
+    forged_inner_attribution(ctx.bin, res, ctx.seed)
     surplus_inner_links(ctx.bin, res, ctx.seed, 24 if not ctx.thorough else 400)
     return common.finish(
         PROP, ctx.tier, ctx.seed, res, t0=ctx.t0,
@@ -647,7 +709,7 @@ def main(ctx):
              "the contributed last product; positive controls compare the returned summary link exactly; every "
              "scenario is non-trivial; distinct by (layout, directory)",
         assumptions=["ground truth by construction; summary computed from the descriptor"],
-        required=["inspection_named_like_step:last:top", "inspection_named_like_step:first:delegated", "inspection_named_like_step:ok", "mode:pattern_name:control:accepted", "mode:pattern_name:sibling_dir:rejected", "surplus_inner_links:accepted", "surplus_inner_links:delegated:last_products", "surplus_inner_links:delegated:first_materials", "surplus_inner_links:top:last_products", "positive_control_accepted", "mode:key_of_other_step", "mode:inner_inspection_fails", "mode:inner_inspection_passes", "positive_at_tree_depth:1", "positive_at_tree_depth:2",
+        required=["forged_inner_attribution:delegated", "forged_inner_attribution:rejected", "forged_inner_attribution:accepted", "inspection_named_like_step:last:top", "inspection_named_like_step:first:delegated", "inspection_named_like_step:ok", "mode:pattern_name:control:accepted", "mode:pattern_name:sibling_dir:rejected", "surplus_inner_links:accepted", "surplus_inner_links:delegated:last_products", "surplus_inner_links:delegated:first_materials", "surplus_inner_links:top:last_products", "positive_control_accepted", "mode:key_of_other_step", "mode:inner_inspection_fails", "mode:inner_inspection_passes", "positive_at_tree_depth:1", "positive_at_tree_depth:2",
                   "positive_at_tree_depth:3", "mode:wrong_signer", "mode:unauth_key", "mode:inner_expired",
                   "mode:inner_link_missing", "mode:links_in_parent_dir", "mode:links_in_other_key_dir",
                   "mode:parent_disallows_summary_product", "mode:parent_requires_summary_product", "mode:inner_rule_fail",
